@@ -17,9 +17,10 @@ Open Scope Q_scope.
 
 (* ---------- values handed to the comparer ---------- *)
 Definition cq := (Q * Q)%type.                       (* re, im *)
-Definition cq_sub (a b : cq) : cq := (fst a - fst b, snd a - snd b).
+(* Qred only normalises the representation (Qred q == q); it keeps the numerals small under vm_compute *)
+Definition cq_sub (a b : cq) : cq := (Qred (fst a - fst b), Qred (snd a - snd b)).
 Definition cq_neg (a : cq) : cq := (- fst a, - snd a).
-Definition cq_n2 (a : cq) : Q := fst a * fst a + snd a * snd a.       (* |a|^2 *)
+Definition cq_n2 (a : cq) : Q := Qred (fst a * fst a + snd a * snd a).       (* |a|^2 *)
 Definition cq_eqb (a b : cq) : bool := Qeq_bool (fst a) (fst b) && Qeq_bool (snd a) (snd b).
 
 Inductive value :=
@@ -42,7 +43,7 @@ Fixpoint cqs_sub (a b : list cq) : option (list cq) :=
   end.
 
 Fixpoint cqs_n2 (l : list cq) : Q :=
-  match l with [] => 0 | x :: r => cq_n2 x + cqs_n2 r end.
+  match l with [] => 0 | x :: r => Qred (cq_n2 x + cqs_n2 r) end.
 
 Fixpoint cqs_eqb (a b : list cq) : bool :=
   match a, b with
